@@ -4,11 +4,13 @@
 def _c42_classes(i, o):
     cls = []
     if i[0] == 1:
-        return ['stress readers=%d' % i[2]]
+        return ['stress readers=%d%s' % (i[2], ' after a panicked write' if len(i) > 4 and i[4] else '')]
     nw = len(i[3])
     cls.append('writers=%d' % nw)
     cls.append('k=%d' % i[1])
     cls.append('readers=%d' % i[4])
+    if any(len(c) == 2 and c[1] for q in i[3] for c in q):
+        cls.append('a write closure panics')
     if isinstance(o, list) and len(o) == 3 and isinstance(o[0], list):
         evs = o[0]
         cls.append('returns=%d' % min(len(evs), 6))
@@ -73,14 +75,15 @@ PROPS = {
         id='C42', cluster='Svc', crate='h-svc', tag=42,
         n={'quick': 600, 'thorough': 12000},
         translators=[['python3', 'translators/seqlock2coq.py']],
-        theorems=['read_returns_complete_value', 'read_not_stale', 'read_checker_sound',
+        theorems=['read_returns_complete_value', 'read_not_stale', 'counter_even_when_idle', 'read_checker_sound',
                   'macro_step_is_micro_schedule', 'two_writers_read_returns_complete_value_refuted'],
         classify=_c42_classes,
         nontrivial=lambda i, o: isinstance(o, list) and o != [-777] and (
             (i[0] == 0 and len(o) == 3 and len(o[0]) > 0) or (i[0] == 1 and len(o) == 4 and o[3] > 0)),
         rule='deterministic runs of the real SeqLock under a controlled scheduler (threads park at the '
              'verif_hooks points; writer closure stores word by word): every interleaving of the 8 grants of 1 writer x 2 writes x 2 words '
-             'with 6 (thorough 9) grants of 1 reader, directed overlap cases, random schedules with k 1..8 words, '
+             'with 6 (thorough 9) grants of 1 reader, the same with a first closure that panics after 1 of 2 words (7 x 6 grants), directed '
+             'panicked-write-then-held-write cases, directed overlap cases, random schedules (a fifth of the closures panic) with k 1..8 words, '
              '0..5 writes, 1..3 readers, two non-overlapping writer threads on the one handle; plus free-running '
              'multi-thread stress runs with 8-word payloads (counts of torn/stale/non-monotone reads). '
              'non-trivial = distinct input with at least one read return',
@@ -89,6 +92,7 @@ PROPS = {
                      'UnsafeCell data race are outside the model (memory orderings are translated but ignored)',
                      'the sequence counter does not wrap (fewer than 2^63 writes)',
                      'exactly one writer thread (two writers: refuted, see the _refuted theorem)',
+                     'a panicking write closure: what it leaves in the cell counts as the value of that call (closure contract)',
                      'translators/seqlock2coq.py is trusted to list the atomic steps of write/read in program order'],
         trusted=['translators/seqlock2coq.py (syntactic extraction of the step lists from seqlock.rs)'],
         level='proof',
